@@ -1,0 +1,58 @@
+//go:build verif
+
+package netty
+
+import (
+	"sync/atomic"
+	"time"
+)
+
+// VerifHook is installed by the verification harness; it is called at every
+// verifPoint with the object (channel, listener, idle handler ...) and the name
+// of the point. The harness may block in it (scheduler gate).
+var VerifHook func(obj interface{}, point string)
+
+func verifPoint(obj interface{}, point string) {
+	if h := VerifHook; nil != h {
+		h(obj, point)
+	}
+}
+
+// VerifChanState is the cheap scalar projection of a channel's internal state.
+type VerifChanState struct {
+	Closed  int32
+	Running int32
+	QLen    int
+	QCap    int
+	Async   bool
+}
+
+// VerifState projects the internal state of a channel created by NewChannel /
+// NewAsyncWriteChannel (atomic loads only, no locks).
+func VerifState(ch Channel) VerifChanState {
+	c, ok := ch.(*channel)
+	if !ok {
+		return VerifChanState{}
+	}
+	st := VerifChanState{
+		Closed:  atomic.LoadInt32(&c.closed),
+		Running: atomic.LoadInt32(&c.running),
+	}
+	if nil != c.writeQueue {
+		st.Async = true
+		st.QLen = len(c.writeQueue)
+		st.QCap = cap(c.writeQueue)
+	}
+	return st
+}
+
+// VerifReadIdleHandler builds a read-idle handler without the >= 1s assertion of
+// the public constructor, so that timed replays are fast.
+func VerifReadIdleHandler(idleTime time.Duration) ChannelInboundHandler {
+	return &readIdleHandler{idleTime: idleTime}
+}
+
+// VerifWriteIdleHandler builds a write-idle handler without the >= 1s assertion.
+func VerifWriteIdleHandler(idleTime time.Duration) ChannelOutboundHandler {
+	return &writeIdleHandler{idleTime: idleTime}
+}
